@@ -476,6 +476,10 @@ def check_second_manager(obs, ro, cancelled=False):
     comps = [i for i, r in enumerate(ev2) if r['k'] == 'cb2_pipeline_complete']
     if finished and len(comps) != 1:
         out.append(F(['C14'], 'pipeline_complete_count', n=len(comps), manager=2))
+    if comps and not any(r['k'] == 'cb2_pipeline_start' for r in ev2[:comps[0]]):
+        out.append(F(['C14'], 'pipeline_complete_without_start', manager=2))
+    if ev2 and ev2[0]['k'] != 'cb2_pipeline_start':
+        out.append(F(['C14'], 'pipeline_start_not_first_once', first=ev2[0]['k'], manager=2))
     if comps and comps[0] != len(ev2) - 1:
         later = [r['k'][4:] + ':' + str(r['node']) for r in ev2[comps[0] + 1:]][:5]
         out.append(F(['C14', 'C13'], 'event_after_pipeline_complete', later=later, manager=2))
